@@ -21,6 +21,7 @@ type c18Case struct {
 	Procs     int               `json:"procs"`
 	Yield     int               `json:"yield"`
 	Serial    bool              `json:"serial,omitempty"` // the serial schedule on the shared environment
+	Loader    string            `json:"loader,omitempty"` // memory (default) | fs
 }
 
 func init() {
@@ -41,7 +42,11 @@ func init() {
 		if c.SB.Requests%4 == 0 {
 			c.SB.Close()
 		}
-		req := &sb.Req{Op: "conc", Env: cs.Env, Loader: "memory", Templates: cs.Templates, Calls: cs.Calls, Procs: cs.Procs, Yield: cs.Yield, DeadlineMs: 20000}
+		loader := cs.Loader
+		if loader == "" {
+			loader = "memory"
+		}
+		req := &sb.Req{Op: "conc", Env: cs.Env, Loader: loader, Templates: cs.Templates, Calls: cs.Calls, Procs: cs.Procs, Yield: cs.Yield, DeadlineMs: 20000}
 		if cs.Serial {
 			req.Extra = map[string]string{"mode": "serial"}
 		}
@@ -52,7 +57,7 @@ func init() {
 		}
 		key, _ := jsonStr(cs)
 		nt := len(cs.Calls) >= 2 && len(distinct) >= 2
-		c.Ev.Count(key, nt, fmt.Sprintf("serial:%v", cs.Serial), "env:"+cs.Env, fmt.Sprintf("goroutines:%d", len(cs.Calls)), fmt.Sprintf("procs:%d", cs.Procs))
+		c.Ev.Count(key, nt, "loader:"+loader, fmt.Sprintf("serial:%v", cs.Serial), "env:"+cs.Env, fmt.Sprintf("goroutines:%d", len(cs.Calls)), fmt.Sprintf("procs:%d", cs.Procs))
 		if nt {
 			c.Ev.Sample(map[string]interface{}{"env": cs.Env, "templates": cs.Templates, "calls": len(cs.Calls), "entries": keysOf(distinct)})
 		}
@@ -121,6 +126,9 @@ func init() {
 					Ctx:   map[string]sb.V{"p": {K: "str", S: "<'\"&" + fmt.Sprint(i)}, "x": {K: "num", N: float64(i)}, "sel": {K: "bool", B: true}}})
 			}
 			cs.Serial = rapid.IntRange(0, 4).Draw(t, "serial") == 0
+			if rapid.IntRange(0, 2).Draw(t, "fs") == 0 {
+				cs.Loader = "fs"
+			}
 			return cs
 		})
 	}
